@@ -99,8 +99,11 @@ CLAIMED = {
         "returns, multi-dot fingerprints, the doubles of dots(), tuplet ratios. Tie B: floats travel as exact fractions; "
         "vocabulary, perturbations, doubles adjacent to every threshold at every scale, random doubles; every meter call under a "
         "2 s alarm.",
-   note=TRUST + "Partial: IEEE rounding of add/subtract and of dots() is tied by the correspondence (relative 1e-12 / exact "
-        "equality on the vocabulary), not proved; integers beyond 2^53 as beat units are outside the explored domain. Two defects "
+   note=TRUST + "value.add / value.subtract are modelled in double arithmetic (Value.addF / subtractF: the code's 1/(1/a +- 1/b) "
+        "with round-to-nearest-even after each of the three operations, ZeroDivisionError for a zero operand or a zero "
+        "sum) and compared with CPython bit for bit; the theorems about them are over Q (the exact harmonic sum) and the "
+        "oracle asks the double result to be within 1e-9 of it. Partial: the doubles of dots() are tied by table equality on "
+        "the vocabulary, not proved from the rounding model; integers beyond 2^53 as beat units are outside the explored domain. Two defects "
         "repaired by fix: commits (4362669, c717ce2).",
    design="§4 C09"),
  "C10": dict(
